@@ -144,6 +144,8 @@ def interpret(desc, v, tok, forced=frozenset()):
         t = (tok[1], tok[2])
         acts = [a for a, _ in plan_for(tok, tag)]
         if 'reject' in acts:
+            if any(a == 'reject' and arg == 'const' for a, arg in plan_for(tok, tag)):
+                return ('EXC', 'ValueError', ('bad input',))
             return ('EXC', 'Reject', (tag, t))
         if bs and bs > 0:
             if 'poison' in acts or tag in forced:
@@ -151,6 +153,8 @@ def interpret(desc, v, tok, forced=frozenset()):
             return (tag, v)
         if 'fail' in acts:
             cls = next((arg for a, arg in plan_for(tok, tag) if a == 'fail'), None)
+            if cls == 'const':
+                return ('EXC', 'ValueError', ('bad input',))
             if cls and not isinstance(cls, int):
                 from .targets import handler_exc_class
 
